@@ -337,6 +337,32 @@ func cliTemplates(c *core.Ctx, in *inputs) []*request {
 	add("unroot", false, R, "unroot", "-i", "@in:tree@")
 	add("reroot-midpoint", false, map[string]string{"tree": in.named}, "reroot", "midpoint", "-i", "@in:tree@")
 	add("reroot-outgroup", false, T, "reroot", "outgroup", "-i", "@in:tree@", in.outgroup[0])
+	// non-monophyletic outgroups: tips scattered over the tree (strict = false: the ancestor is searched anyway)
+	for k := 0; k < 4; k++ {
+		sz := 2 + c.G.Intn(3)
+		perm := c.G.R.Perm(len(in.tips))
+		og := []string{}
+		for _, i := range perm[:sz] {
+			og = append(og, in.tips[i])
+		}
+		files := R
+		if k%2 == 1 {
+			files = map[string]string{"tree": in.named}
+		}
+		add(fmt.Sprintf("reroot-outgroup-nonmono-%d", k), false, files, append([]string{"reroot", "outgroup", "-i", "@in:tree@"}, og...)...)
+	}
+	{
+		// the other callers of LeastCommonAncestorUnrooted, on scattered (usually non-monophyletic) tip sets
+		perm := c.G.R.Perm(len(in.tips))
+		sc := []string{in.tips[perm[0]], in.tips[perm[1]], in.tips[perm[2]]}
+		scf := strings.Join(sc, "\n") + "\n"
+		add("reroot-outgroup-nonmono-remove", false, R, append([]string{"reroot", "outgroup", "-i", "@in:tree@", "-r"}, sc...)...)
+		add("reroot-outgroup-nonmono-file", false, map[string]string{"tree": in.tree, "tips": scf}, "reroot", "outgroup", "-i", "@in:tree@", "-l", "@in:tips@")
+		add("stats-mono-scattered", false, map[string]string{"tree": in.multi, "tips": scf}, "stats", "monophyletic", "-i", "@in:tree@", "-l", "@in:tips@")
+		add("bipartitiontree-scattered", false, map[string]string{"tree": in.tree, "tips": scf}, "compute", "bipartitiontree", "-i", "@in:tree@", "-f", "@in:tips@")
+		add("collapse-clade-nonmono", false, map[string]string{"tree": in.rooted, "tips": scf}, "collapse", "clade", "-i", "@in:tree@", "-l", "@in:tips@", "-n", "CLADE")
+		add("consensus-majority", false, M, "compute", "consensus", "-i", "@in:tree@", "-f", "0.7")
+	}
 	add("collapse-length", false, T, "collapse", "length", "-i", "@in:tree@", "-l", "1")
 	add("collapse-support", false, T, "collapse", "support", "-i", "@in:tree@", "-s", "0.5")
 	add("collapse-depth", false, T, "collapse", "depth", "-i", "@in:tree@", "-m", "2", "-M", "3")
